@@ -80,20 +80,20 @@ func argsFromList(arg slip.Object, p *slip.Printer) Node {
 		for i, a := range args {
 			switch ta := a.(type) {
 			case slip.Symbol:
-				nargs.children[i] = &Leaf{text: []byte(ta)}
+				nargs.children[i] = &Leaf{text: ta.Readably(nil, p)}
 			case slip.List:
 				switch len(ta) {
 				case 0:
 					// bad definition so ignore
 				case 1:
 					if sym, ok2 := ta[0].(slip.Symbol); ok2 {
-						nargs.children[i] = &Leaf{text: []byte(sym)}
+						nargs.children[i] = &Leaf{text: sym.Readably(nil, p)}
 					}
 				default:
 					if sym, ok2 := ta[0].(slip.Symbol); ok2 {
 						nargs.children[i] = &List{
 							children: []Node{
-								&Leaf{text: []byte(sym)},
+								&Leaf{text: sym.Readably(nil, p)},
 								buildNode(ta[1], p),
 							},
 						}
